@@ -91,7 +91,7 @@ class Outcome:
 
 
 class Frame:
-    __slots__ = ('fn', 'env', 'facts', 'module', 'cls', 'depth', 'yields', 'effects', 'ret_facts', 'mutated')
+    __slots__ = ('fn', 'env', 'facts', 'module', 'cls', 'depth', 'yields', 'effects', 'ret_facts', 'mutated', 'shallow')
 
     def __init__(self, fn, env, facts, module, cls, depth):
         self.fn = fn
@@ -104,6 +104,7 @@ class Frame:
         self.effects = []
         self.ret_facts = []
         self.mutated = set()      # local names whose value was mutated in place (method call, item / attribute store)
+        self.shallow = {}         # name -> name it is a shallow copy of (list(x), x[:], x.copy()): the ELEMENTS are shared
 
 
 FALL = ('fall',)     # block completed normally
@@ -593,6 +594,12 @@ class Evaluator:
         self._pending_raise = None
         for t in st.targets:
             self.assign(t, v, fr)
+        if len(st.targets) == 1 and isinstance(st.targets[0], ast.Name):
+            src = _shallow_copy_source(st.value)
+            if src is not None and src in fr.env and src != st.targets[0].id:
+                fr.shallow[st.targets[0].id] = src
+            else:
+                fr.shallow.pop(st.targets[0].id, None)
         pr, self._pending_raise = self._pending_raise, None
         if pr is not None and r is FALL:
             # a property setter that can raise: the statement raises on those alternatives
@@ -1073,15 +1080,21 @@ class Evaluator:
                     fr.mutated.add(n.id)
 
     def _inplace_map_loop(self, st, it, fr):
+        """`for row in rows: [temporaries]; row.append(E)` or `row[K] = E` (constant K) over a symbolic list of rows rewrites
+        every row in place - visible through every name that shares the row objects (a shallow copy of the list)."""
         body = st.body
         if st.orelse or not body or not isinstance(st.target, ast.Name) or not isinstance(st.iter, ast.Name) \
                 or st.iter.id not in fr.env:
             return False
         tname = st.target.id
         last = body[-1]
-        if not (isinstance(last, ast.Expr) and isinstance(last.value, ast.Call) and isinstance(last.value.func, ast.Attribute)
-                and last.value.func.attr == 'append' and isinstance(last.value.func.value, ast.Name)
-                and last.value.func.value.id == tname and len(last.value.args) == 1 and not last.value.keywords):
+        is_append = (isinstance(last, ast.Expr) and isinstance(last.value, ast.Call) and isinstance(last.value.func, ast.Attribute)
+                     and last.value.func.attr == 'append' and isinstance(last.value.func.value, ast.Name)
+                     and last.value.func.value.id == tname and len(last.value.args) == 1 and not last.value.keywords)
+        is_store = (isinstance(last, ast.Assign) and len(last.targets) == 1 and isinstance(last.targets[0], ast.Subscript)
+                    and isinstance(last.targets[0].value, ast.Name) and last.targets[0].value.id == tname
+                    and not isinstance(last.targets[0].slice, ast.Slice))
+        if not (is_append or is_store):
             return False
         if not all(isinstance(s_, ast.Assign) and all(isinstance(t_, ast.Name) and t_.id != tname for t_ in s_.targets) for s_ in body[:-1]):
             return False
@@ -1101,14 +1114,34 @@ class Evaluator:
             if r is not FALL:
                 fr.env = saved
                 return False
-        val = self.expr(last.value.args[0], fr)
+        val = self.expr(last.value.args[0] if is_append else last.value, fr)
         if _has_raise(val) or T.tag(val) == 'raise':
             fr.env = saved
             return False
-        new_elem = T.lst(list(elem[1]) + [val]) if T.tag(elem) == 'list' else T.raw_op('APPEND', elem, val)
+        if is_append:
+            new_elem = T.lst(list(elem[1]) + [val]) if T.tag(elem) == 'list' else T.raw_op('APPEND', elem, val)
+        else:
+            idx = self.expr(last.targets[0].slice, fr)
+            elem0 = _strip_raise(elem) if T.tag(elem) == 'phi' else elem
+            if not (T.tag(elem0) == 'list' and _is_int_const(idx) and -len(elem0[1]) <= idx[1] < len(elem0[1])):
+                fr.env = saved
+                return False
+            items = list(elem0[1])
+            items[idx[1]] = val
+            new_elem = T.lst(items)
+            if elem0 is not elem:
+                new_elem = _map_leaves(_raise_split(elem), lambda x: x if T.tag(x) == 'raise' else new_elem)
         fr.env = saved
-        fr.env[st.iter.id] = T.raw_op('MAP', var, new_elem, src, T.TRUE, T.const('list'))
+        old_val = fr.env[st.iter.id]
+        new_val = T.raw_op('MAP', var, new_elem, src, T.TRUE, T.const('list'))
+        fr.env[st.iter.id] = new_val
         fr.mutated.add(st.iter.id)
+        # the rows are shared with every shallow copy of the list (and with what it was copied from)
+        for a_, b_ in list(fr.shallow.items()):
+            other = b_ if a_ == st.iter.id else (a_ if b_ == st.iter.id else None)
+            if other is not None and other in fr.env and fr.env[other] == old_val:
+                fr.env[other] = new_val
+                fr.mutated.add(other)
         return True
 
     def _append_only_loop(self, st, it, fr):
@@ -2388,6 +2421,27 @@ def _is_dispatch(v):
         v = v[3]
         n += 1
     return n >= 1
+
+
+def _shallow_copy_source(e):
+    """`list(x)`, `tuple(x)`, `x[:]`, `x.copy()`, `copy.copy(x)`, `sorted(x)`, `list(reversed(x))` for a plain name x: a new
+    container holding the very same element objects."""
+    if isinstance(e, ast.Call) and len(e.args) == 1 and not e.keywords and isinstance(e.func, ast.Name) \
+            and e.func.id in ('list', 'tuple', 'sorted', 'reversed'):
+        a = e.args[0]
+        if isinstance(a, ast.Name):
+            return a.id
+        return _shallow_copy_source(a)
+    if isinstance(e, ast.Call) and not e.args and not e.keywords and isinstance(e.func, ast.Attribute) and e.func.attr == 'copy' \
+            and isinstance(e.func.value, ast.Name):
+        return e.func.value.id
+    if isinstance(e, ast.Call) and len(e.args) == 1 and isinstance(e.func, ast.Attribute) and e.func.attr == 'copy' \
+            and isinstance(e.func.value, ast.Name) and e.func.value.id == 'copy' and isinstance(e.args[0], ast.Name):
+        return e.args[0].id
+    if isinstance(e, ast.Subscript) and isinstance(e.slice, ast.Slice) and e.slice.lower is None and e.slice.upper is None \
+            and e.slice.step is None and isinstance(e.value, ast.Name):
+        return e.value.id
+    return None
 
 
 def _mutates_name(stmts, name):
